@@ -3,9 +3,12 @@ import CogentModel.Model.SeqFormats
 import CogentModel.Spec.SeqRecords
 import CogentModel.Proofs.Splitlines
 import CogentModel.Proofs.SeqFormats
+import CogentModel.Spec.FastaText
+import CogentModel.Proofs.FastaGeneral
 /-! # C06 — property theorems (sequence formats round-trip, parsers agree, chunking is invisible) -/
 namespace CogentModel.C06
-open CogentModel.Splitlines CogentModel.SeqFormats CogentModel.SeqSpec
+open CogentModel.Splitlines CogentModel.SeqFormats CogentModel.SeqSpec CogentModel.FastaText
+variable {cfg : Cfg}
 
 /-- **Every chunk size yields the same lines.**  For every text and *every* way of cutting it
 into non-empty chunks (hence every `chunk_size ≥ 1` of `iter_splitlines`, and every sequence of
@@ -38,7 +41,7 @@ both line based parsers applied to the text `seqs_to_fasta` writes return exactl
 order and the sequences. -/
 theorem fasta_roundtrip (recs : List (Str × List Str)) (hwf : WfRecs ['>'] recs) :
     fastaFaster (fastaFormat recs) = expected recs ∧
-    (recs ≠ [] → fastaStrict (fastaFormat recs) = .ok (expected recs)) := by
+    (recs ≠ [] → fastaStrict cfg (fastaFormat recs) = .ok (expected recs)) := by
   have hl := pySplitlines_unlines (recLines_noBreak (l0 := '>') (by decide) hwf)
   unfold fastaFaster fastaStrict
   rw [fastaFormat_eq, hl]
@@ -49,7 +52,7 @@ theorem fasta_roundtrip (recs : List (Str × List Str)) (hwf : WfRecs ['>'] recs
 covered by `fasta_roundtrip` otherwise). -/
 theorem fasta_roundtrip_blocks (bs : Nat) (hbs : 0 < bs) (recs : List Rec) (hne : recs ≠ [])
     (hwf : ∀ r ∈ recs, wfName r.1 = true ∧ wfSeq ['>'] r.2 = true) :
-    fastaStrict (fastaFormatW (chunkWrap bs) recs) = .ok recs ∧
+    fastaStrict cfg (fastaFormatW (chunkWrap bs) recs) = .ok recs ∧
     fastaFaster (fastaFormatW (chunkWrap bs) recs) = recs := by
   have hw : WfRecs ['>'] (recs.map (fun r => (r.1, chunkWrap bs r.2))) := by
     intro r hr
@@ -62,7 +65,7 @@ theorem fasta_roundtrip_blocks (bs : Nat) (hbs : 0 < bs) (recs : List Rec) (hne 
     apply List.map_congr_left
     intro r _
     simp [chunkWrap_flatten hbs]
-  have := fasta_roundtrip _ hw
+  have := fasta_roundtrip (cfg := cfg) _ hw
   unfold fastaFormatW
   rw [he] at this
   exact ⟨this.2 (by simpa using hne), this.1⟩
@@ -75,66 +78,31 @@ example : chunkWrap 4 ['A', 'C', 'G', 'T', 'A', 'C', 'G', 'T'] = [['A', 'C', 'G'
     chunkWrap 4 ['A', 'C', 'G', 'T', '-'] = [['A', 'C', 'G', 'T'], ['-']] ∧ chunkWrap 4 ['A', 'C', 'G'] = [['A', 'C', 'G']] := by
   decide
 
-/-- **The parsers of the format agree** (bytes based `iter_fasta_records` vs line based
-`MinimalFastaParser` strict / non-strict) on every text of the canonical shape — label line,
-then ≥ 1 non-empty residue lines, any wrapping — **provided no label contains `>`** and the
-residues contain no lower-case letter (the bytes parser upper-cases). -/
-theorem fasta_parsers_agree_partial (recs : List (Str × List Str)) (hne : recs ≠ [])
-    (hwf : WfRecs ['>'] recs) (hgt : ∀ r ∈ recs, '>' ∉ r.1)
-    (hlow : ∀ r ∈ recs, noLower r.2.flatten = true) :
-    fastaStrict (fastaFormat recs) = .ok (fastaBytes (fastaFormat recs)) ∧
-    fastaFaster (fastaFormat recs) = fastaBytes (fastaFormat recs) ∧
-    fastaBytes (fastaFormat recs) = expected recs := by
-  have hb : fastaBytes (fastaFormat recs) = expected recs := by
-    rw [fastaFormat_eq]; exact fastaBytes_recs recs hwf hgt hlow
-  have := fasta_roundtrip recs hwf
-  rw [hb]
-  exact ⟨this.2 hne, this.1, rfl⟩
-
-example : WfRecs ['>'] [(['s', 'e', 'q', ' ', '1', '|', 'x'], [['A', 'C', '-'], ['G']])] ∧
-    (∀ r ∈ [((['s', 'e', 'q', ' ', '1', '|', 'x'] : Str), ([['A', 'C', '-'], ['G']] : List Str))], '>' ∉ r.1) := by
-  decide
-
-/- FULL STATEMENT (not proved): `fasta_parsers_agree` — the statement of
-   `fasta_parsers_agree_partial` without the hypothesis `hgt`, i.e. for *every* well-formed
-   printable-ASCII label ("labels preserved verbatim").
-   It is FALSE for the code as written: `iter_fasta_records` does `data.split(b">")`, which
-   splits on a `>` anywhere, not only at the start of a line; `fasta_bytes_gt_counter` below is
-   the kernel-checked witness, and the harness replays it on the real code
-   (known finding C06-fasta-bytes-gt). -/
-
-/-- Witness that the `>` hypothesis cannot be dropped: for the well-formed record
-`("a>b c", "ACGT")` the line parser returns the label verbatim and the bytes parser `"b c"`. -/
-theorem fasta_bytes_gt_counter :
-    WfRecs ['>'] [(['a', '>', 'b', ' ', 'c'], [['A', 'C', 'G', 'T']])] ∧
-    fastaStrict (fastaFormat [(['a', '>', 'b', ' ', 'c'], [['A', 'C', 'G', 'T']])]) =
-      .ok [(['a', '>', 'b', ' ', 'c'], ['A', 'C', 'G', 'T'])] ∧
-    fastaBytes (fastaFormat [(['a', '>', 'b', ' ', 'c'], [['A', 'C', 'G', 'T']])]) =
-      [(['b', ' ', 'c'], ['A', 'C', 'G', 'T'])] := by
-  decide
-
-/-- **With the repaired record splitter** (`fixes/C06-fasta-bytes-gt.patch`: split only at a `>`
-that starts a line) the three parsers agree for *every* well-formed label, `>` included. The
-harness decides on every run which of the two splitters the code under test corresponds to. -/
-theorem fasta_parsers_agree_repaired (recs : List (Str × List Str)) (hne : recs ≠ [])
+/-- **The parsers of the format agree, labels verbatim** (bytes based `iter_fasta_records` — the parser behind
+`load_aligned_seqs` / `load_unaligned_seqs` — vs line based `MinimalFastaParser` strict / non-strict) on every
+text `seqs_to_fasta` can write: label line, then ≥ 1 non-empty residue lines in any wrapping. Labels are any
+well-formed printable-ASCII names, **`>` inside a label included**; residues upper case (the bytes parser
+upper-cases; `fasta_general_agree` states the lower-case behaviour exactly). The historical defect (record
+splitting on `>` anywhere) lives on only as a regression witness in `known_findings.d/C06.json`. -/
+theorem fasta_parsers_agree (recs : List (Str × List Str)) (hne : recs ≠ [])
     (hwf : WfRecs ['>'] recs) (hlow : ∀ r ∈ recs, noLower r.2.flatten = true) :
-    fastaStrict (fastaFormat recs) = .ok (fastaBytesLS (fastaFormat recs)) ∧
-    fastaFaster (fastaFormat recs) = fastaBytesLS (fastaFormat recs) ∧
-    fastaBytesLS (fastaFormat recs) = expected recs := by
-  have hb : fastaBytesLS (fastaFormat recs) = expected recs := by
-    rw [fastaFormat_eq]; exact fastaBytesLS_recs recs hwf hlow
-  have := fasta_roundtrip recs hwf
+    fastaStrict cfg (fastaFormat recs) = .ok (fastaBytes cfg (fastaFormat recs)) ∧
+    fastaFaster (fastaFormat recs) = fastaBytes cfg (fastaFormat recs) ∧
+    fastaBytes cfg (fastaFormat recs) = expected recs := by
+  have hb : fastaBytes cfg (fastaFormat recs) = expected recs := by
+    rw [fastaFormat_eq]; exact fastaBytes_recs recs hwf hlow
+  have := fasta_roundtrip (cfg := cfg) recs hwf
   rw [hb]
   exact ⟨this.2 hne, this.1, rfl⟩
 
-example : fastaBytesLS (fastaFormat [(['a', '>', 'b', ' ', 'c'], [['A', 'C', 'G', 'T']])]) =
+example : fastaBytes Cfg.pinned (fastaFormat [(['a', '>', 'b', ' ', 'c'], [['A', 'C', 'G', 'T']])]) =
     [(['a', '>', 'b', ' ', 'c'], ['A', 'C', 'G', 'T'])] := by decide
 
 /-- **GDE round-trip** for every block size ≥ 1: `MinimalGdeParser` (label characters `%#`, strict
 and non-strict) applied to what `GDEFormatter.format` writes returns the records. -/
 theorem gde_roundtrip (bs : Nat) (hbs : 0 < bs) (recs : List Rec) (hne : recs ≠ [])
     (hwf : ∀ r ∈ recs, wfName r.1 = true ∧ wfSeq ['%', '#'] r.2 = true) :
-    gdeStrict (gdeFormat bs recs) = .ok recs ∧
+    gdeStrict cfg (gdeFormat bs recs) = .ok recs ∧
     fasterParser ['%', '#'] (pySplitlines (gdeFormat bs recs)) = recs := by
   have hw := blocked_wf hbs hwf
   have hl := pySplitlines_unlines (recLines_noBreak (l0 := '%') (by decide) hw)
@@ -246,26 +214,26 @@ theorem phylip_text_nlOnly (bs : Nat) (hbs : 0 < bs) (recs : List Rec) (text : S
 theorem fasta_streamed_roundtrip (recs : List (Str × List Str)) (hwf : WfRecs ['>'] recs)
     (chunks : List (List Char)) (hne : ∀ ch ∈ chunks, ch ≠ []) (hcat : chunks.flatten = fastaFormat recs) :
     fasterParser ['>'] (iterSplitlines chunks) = expected recs ∧
-    (recs ≠ [] → strictParser ['>'] (iterSplitlines chunks) = .ok (expected recs)) := by
+    (recs ≠ [] → strictParser cfg ['>'] (iterSplitlines chunks) = .ok (expected recs)) := by
   have hnl := fasta_text_nlOnly recs hwf
   rw [streamed_parse_eq (fasterParser ['>']) _ hnl chunks hne hcat,
-    streamed_parse_eq (strictParser ['>']) _ hnl chunks hne hcat]
+    streamed_parse_eq (strictParser cfg ['>']) _ hnl chunks hne hcat]
   exact fasta_roundtrip recs hwf
 
 /-- **GDE, every chunk size and every block size** (the registry's `LineBasedParser(MinimalGdeParser)`) -/
 theorem gde_streamed_roundtrip (bs : Nat) (hbs : 0 < bs) (recs : List Rec) (hne : recs ≠ [])
     (hwf : ∀ r ∈ recs, wfName r.1 = true ∧ wfSeq ['%', '#'] r.2 = true)
     (chunks : List (List Char)) (hch : ∀ ch ∈ chunks, ch ≠ []) (hcat : chunks.flatten = gdeFormat bs recs) :
-    strictParser ['%', '#'] (iterSplitlines chunks) = .ok recs ∧
+    strictParser cfg ['%', '#'] (iterSplitlines chunks) = .ok recs ∧
     fasterParser ['%', '#'] (iterSplitlines chunks) = recs := by
   have hnl := gde_text_nlOnly bs hbs recs hwf
-  rw [streamed_parse_eq (strictParser ['%', '#']) _ hnl chunks hch hcat,
+  rw [streamed_parse_eq (strictParser cfg ['%', '#']) _ hnl chunks hch hcat,
     streamed_parse_eq (fasterParser ['%', '#']) _ hnl chunks hch hcat]
   exact gde_roundtrip bs hbs recs hne hwf
 
 example : [['%', 's', '>'], ['1', '\n', 'A'], ['C', '\n'], ['G', 'T', '\n', 'A', '\n']].flatten
     = gdeFormat 2 [(['s', '>', '1'], ['A', 'C', 'G', 'T', 'A'])] := by decide
-example : strictParser ['%', '#'] (iterSplitlines [['%', 's', '>'], ['1', '\n', 'A'], ['C', '\n'], ['G', 'T', '\n', 'A', '\n']])
+example : strictParser Cfg.pinned ['%', '#'] (iterSplitlines [['%', 's', '>'], ['1', '\n', 'A'], ['C', '\n'], ['G', 'T', '\n', 'A', '\n']])
     = .ok [(['s', '>', '1'], ['A', 'C', 'G', 'T', 'A'])] := by decide
 
 /-- **PAML, every chunk size and every block size** (the registry's `LineBasedParser(PamlParser)`) -/
@@ -298,5 +266,54 @@ theorem phylip_streamed_roundtrip (bs : Nat) (hbs : 0 < bs) (recs : List Rec) (h
 example : phylipParser (iterSplitlines [['1', ' ', ' ', '3'], ['\n', 'a', 'b'],
     [' ', ' ', ' ', ' ', ' ', ' ', ' ', ' ', 'A', 'C', '\n', ' '], [' ', ' ', ' ', ' ', ' ', ' ', ' ', ' ', ' ', 'G', '\n']])
     = .ok [(['a', 'b'], ['A', 'C', 'G'])] := by decide
+
+/-! ## Parser agreement on well-formed FASTA that is not writer shaped -/
+
+/-- **All three FASTA parsers agree on every well-formed text, labels verbatim** — not only on what the writer
+produces. `wfFile` (Spec/FastaText.lean) admits: blanks / tabs around the label, an empty label, labels containing
+`>`, blank and blank-only lines inside and between records, blanks / tabs inside and around residue lines,
+lower-case residues, `"\n"` or `"\r\n"` per line (mixed), and a missing terminator on the last line.
+The line based parsers return the residues in the case they were written; the bytes based parser returns exactly
+their upper-casing (`minimal_converter`), so all three are identical on upper-case data
+(`fasta_general_agree_upper`). Not admitted — the parsers of the code genuinely disagree, see
+`known_findings.d/C06.json`: text before the first label line, `#` comment lines, records without a non-empty
+body line. -/
+theorem fasta_general_agree (gs : List GRec) (h : wfFile gs = true) :
+    fastaFaster (fileRaw gs) = records gs ∧
+    (gs ≠ [] → fastaStrict cfg (fileRaw gs) = .ok (records gs)) ∧
+    fastaBytes cfg (fileRaw gs) = (records gs).map (fun r => (r.1, upper r.2)) := by
+  have hl := pySplitlines_fileRaw gs h
+  have hf := wfFile_facts h
+  unfold fastaFaster fastaStrict
+  rw [hl]
+  exact ⟨fasterParser_grecs gs hf, fun hne => strictParser_grecs gs hne hf, fastaBytes_grecs gs h⟩
+
+/-- on upper-case residues the three parsers return identical records -/
+theorem fasta_general_agree_upper (gs : List GRec) (h : wfFile gs = true) (hne : gs ≠ [])
+    (hup : ∀ g ∈ gs, noLower (residues g) = true) :
+    fastaStrict cfg (fileRaw gs) = .ok (fastaBytes cfg (fileRaw gs)) ∧ fastaFaster (fileRaw gs) = fastaBytes cfg (fileRaw gs) ∧
+    fastaBytes cfg (fileRaw gs) = records gs := by
+  obtain ⟨h1, h2, h3⟩ := fasta_general_agree gs h
+  have : (records gs).map (fun r => (r.1, upper r.2)) = records gs := by
+    conv => rhs; rw [← List.map_id (records gs)]
+    apply List.map_congr_left
+    intro r hr
+    simp only [records, List.mem_map] at hr
+    obtain ⟨g, hg, rfl⟩ := hr
+    simp [upper_id (hup g hg)]
+  rw [h3, this]
+  exact ⟨h2 hne, h1, rfl⟩
+
+-- non-vacuity: `> a>b \r\n` `\r\n` `AC g\r\n` `\n` `>\n` ` \tT-\n` `\n` `NN` (CRLF + LF mixed, blank lines, blanks around
+-- label and residues, `>` in a label, empty label, lower case, no final newline)
+example : wfFile [⟨[' '], ['a', '>', 'b'], [' '], true, [⟨[], .crlf⟩, ⟨['A', 'C', ' ', 'g'], .crlf⟩, ⟨[], .lf⟩]⟩,
+                  ⟨[], [], [], false, [⟨[' ', '\t', 'T', '-'], .lf⟩, ⟨[], .lf⟩, ⟨['N', 'N'], .eof⟩]⟩] = true := by decide
+example : fileRaw [⟨[' '], ['a', '>', 'b'], [' '], true, [⟨[], .crlf⟩, ⟨['A', 'C', ' ', 'g'], .crlf⟩, ⟨[], .lf⟩]⟩,
+                   ⟨[], [], [], false, [⟨[' ', '\t', 'T', '-'], .lf⟩, ⟨[], .lf⟩, ⟨['N', 'N'], .eof⟩]⟩] =
+    ['>', ' ', 'a', '>', 'b', ' ', '\r', '\n', '\r', '\n', 'A', 'C', ' ', 'g', '\r', '\n', '\n',
+     '>', '\n', ' ', '\t', 'T', '-', '\n', '\n', 'N', 'N'] := by decide
+example : fastaBytes Cfg.pinned ['>', ' ', 'a', '>', 'b', ' ', '\r', '\n', '\r', '\n', 'A', 'C', ' ', 'g', '\r', '\n', '\n',
+     '>', '\n', ' ', '\t', 'T', '-', '\n', '\n', 'N', 'N'] = [(['a', '>', 'b'], ['A', 'C', 'G']), ([], ['T', '-', 'N', 'N'])] := by
+  decide
 
 end CogentModel.C06
